@@ -411,11 +411,15 @@ set_option linter.unusedSimpArgs false
 local macro "loop_body" c:term : tactic => `(tactic| first
   | (intro s e; rfl)
   | (intro s it
-     simp only [emIter, pyCall_fst, pyCall_snd]
-     by_cases h1 : succeeds $c it <;> simp_all; done)
+     simp only [emIter, succeedsEm, pyCall_fst, pyCall_snd]
+     rcases out_cases $c it with ⟨ks, h⟩ | h | ⟨ks, h⟩ <;> simp_all; done)
   | (intro acc it
-     simp only [digIter, pyCall_fst, pyCall_snd]
-     by_cases h1 : succeeds $c it <;> by_cases h3 : (keysOf $c it).isEmpty <;> simp_all [dictUpdate]; done))
+     simp only [digIter, succeeds, keysOf, pyCall_fst, pyCall_snd]
+     rcases out_cases $c it with ⟨ks, h⟩ | h | ⟨ks, h⟩
+     · cases ks <;> simp_all [dictUpdate, PyVal.truthy, pyDictUpdateM]
+     · simp_all [dictUpdate]
+     · simp_all [dictUpdate, PyVal.truthy, pyDictUpdateM]
+     done))
 
 /-- (table) Every entry point (`ingest`, `ingest_error`, `ingest_sensitive`, `digest`, `autophagy`,
     `clear_recycling_bin`, the toxic digester) and every helper it reaches was accepted by the translator: the source
@@ -514,11 +518,12 @@ theorem c13_translation_agrees_clear_recycling_bin (cfg : Cfg) (s : State) :
   rfl
 
 /-- The method the object stores for TOXIC_BYPRODUCT, as translated (`on_toxic` called iff it is set, once, before
-    anything else; its exception propagates; the result is the empty dict): exactly what the model's `digestOne` says
-    the table entry does for a sensitive item when no custom toxic digester is registered. -/
+    anything else; its exception propagates; the result is the empty dict — a real dict, so always mergeable):
+    exactly what the model's `digestOne` says the table entry does for a sensitive item when no custom toxic digester
+    is registered. -/
 theorem c13_translation_agrees_toxic_digester (cfg : Cfg) (htd : cfg.toxDig = none) (p : PyS) (it : Item)
     (hty : it.ty = .toxic) :
-    Tr.toxic_digester cfg p it =
+    ((Tr.toxic_digester cfg p it).1, (Tr.toxic_digester cfg p it).2.map PyVal.dict) =
       ({ p with toxicLog := p.toxicLog ++ (pyCallDigester cfg it).2 }, (pyCallDigester cfg it).1) := by
   obtain ⟨maxQ, thr, ret, reent, dig, toxDig, onToxic⟩ := cfg
   simp only at htd
